@@ -154,7 +154,7 @@ func typeTableStructs(c *Ctx, r *Report, rule, consequence string) {
 // Every suffix s[X:] taken inside the label loop (compression lookup, insertion, the length of the labels a pointer
 // stands for) starts at the s-position of the current label: X is the variable that is assigned begin+compOff.
 func c03SuffixIndex(c *Ctx, r *Report, rule string) {
-	r.rule(rule, 3, "every suffix s[X:] of the presentation string taken in packDomainName's label loop starts at begin+compOff (the position in s, not in the compacted copy)")
+	r.rule(rule, 1, "every suffix s[X:] of the presentation string taken in packDomainName's label loop starts at begin+compOff (the position in s, not in the compacted copy)")
 	fn := c.ssaFunc("packDomainName")
 	if fn == nil {
 		r.cerr(rule, "packDomainName", "function not found")
